@@ -89,6 +89,18 @@ def fixed_beta_specs(ctx):
     return specs
 
 
+def large_population_specs(ctx):
+    """Search populations larger than the default (n_search / n_search_iter candidates per ES generation: 3000, 5000, 4100)."""
+    from .. import gen
+    rng = ctx.sub_rng("c18large")
+    specs = []
+    for ns, nsi in ((6000, 2), (5000, 1)) + (() if ctx.quick else ((8200, 2), (2**13, 2), (7000, 3))):
+        sp = gen.make_spec(rng, D=2, geom="box", mode="det", cons=rng.choice([None, "ball"]), opt_loc=rng.choice(["inside", "on_bound"]), target="quad")
+        sp["options"] = {"n_search": ns, "n_search_iter": nsi, "max_fun_evals": 22}
+        specs.append(sp)
+    return specs
+
+
 def tiny_population_specs(ctx):
     """ES populations of 1-3 candidates (n_search / n_search_iter tiny) with the optimum on or beyond a bound: single candidates land outside the
     mesh-rounded box and have to be projected like any other."""
@@ -108,6 +120,7 @@ def run_level(ctx, rep):
         runlevel.with_extra(ctx, "c18empty", lambda: empty_population_specs(ctx))
         runlevel.with_extra(ctx, "c18tiny", lambda: tiny_population_specs(ctx))
         runlevel.with_extra(ctx, "c18beta", lambda: fixed_beta_specs(ctx))
+        runlevel.with_extra(ctx, "c18large", lambda: large_population_specs(ctx))
     if not getattr(ctx, "_replaying", False):
         runlevel.scripted_controller_runs(ctx, "c18script", 8 if ctx.quick else 60, want=("ctl", "filt", "gp"))
     traces = runlevel.get_pool(ctx)
@@ -140,6 +153,12 @@ def run_level(ctx, rep):
                                   f"violate the non-box constraint (the strategy's filter was {'not ' if not e['has_cons'] else ''}handed the constraint function); {tag}", case)
             if k == "ACQ" and e["site"] == "es":
                 stats["es_generations"] += 1
+                # one acquisition value per candidate handed to the acquisition function (whatever the size of the population)
+                if e.get("n_xi") is not None and e["n"] != e["n_xi"] and "acq_all" not in reported:
+                    reported.add("acq_all")
+                    rep.violation("es_argmin", SITE_E, f"the acquisition function returned {e['n']} values for {e['n_xi']} surviving candidates: the ranking cannot pair "
+                                  f"every candidate with its own value; {tag}", case)
+                stats["large_generations"] = stats.get("large_generations", 0) + (e.get("n_xi", 0) > 2048)
                 # the acquisition values the strategy ranks by are mean - c * sd for the CONFIGURED c (when the search acquisition function is
                 # given a fixed scalar confidence parameter)
                 cfg = (sp.get("np_options") or {}).get("search_acq_fcn")
